@@ -21,7 +21,9 @@ from .corpus import BENIGN, MUTANTS
 
 def _apply(edits) -> Optional[Dict[str, str]]:
     overrides: Dict[str, str] = {}
-    for relpath, old, new in edits:
+    for edit in edits:
+        relpath, old, new = edit[0], edit[1], edit[2]
+        everywhere = len(edit) > 3 and edit[3] == "all"
         path = os.path.join(REPO_ROOT, relpath)
         if relpath in overrides:
             src = overrides[relpath]
@@ -33,7 +35,7 @@ def _apply(edits) -> Optional[Dict[str, str]]:
                 return None
         if old not in src:
             return None
-        overrides[relpath] = src.replace(old, new, 1)
+        overrides[relpath] = src.replace(old, new) if everywhere else src.replace(old, new, 1)
     return overrides
 
 
@@ -55,7 +57,7 @@ def _run_case(case) -> Tuple[str, str, str]:
         return ident, "error", f"mutant made the engine give up instead of reporting: {exc}"
     except Exception as exc:  # noqa: BLE001
         return ident, "error", f"{type(exc).__name__}: {exc}"
-    files = {rel for rel, _, _ in edits}
+    files = {edit[0] for edit in edits}
     hits = [f for f in result.findings if f.relpath in files] or ([] if benign else [])
     if benign:
         # compare with the unmutated tree: a benign variant must not add findings
@@ -73,7 +75,8 @@ def _run_case(case) -> Tuple[str, str, str]:
     return ident, "missed", ""
 
 
-def run_selftest(property_id: str, seed: int = 0, rules: Optional[List[str]] = None) -> int:
+def run_selftest(property_id: str, seed: int = 0, rules: Optional[List[str]] = None, quiet: bool = False):
+    """Returns (exit_code, summary)."""
     from ..plan import PLAN
 
     started = time.time()
@@ -82,20 +85,29 @@ def run_selftest(property_id: str, seed: int = 0, rules: Optional[List[str]] = N
     cases = [(m[0], m[1], m[2], False) for m in MUTANTS if m[1] in rules]
     cases += [(b[0], b[1], b[2], True) for b in BENIGN if b[1] in rules]
     random.Random(seed).shuffle(cases)
+    summary = {"rules": rules, "cases": len(cases), "mutants": sum(1 for c in cases if not c[3]),
+               "benign": sum(1 for c in cases if c[3]), "ok": 0, "skipped": [], "failed": [], "samples": []}
     if not cases:
-        print(f"{property_id} thorough: no self-validation cases for rules {rules}")
-        return 0
+        return 0, summary
     with ProcessPoolExecutor(max_workers=min(16, len(cases))) as pool:
         results = list(pool.map(_run_case, cases))
-    bad = [r for r in results if r[1] in ("missed", "fired", "error")]
-    skipped = [r for r in results if r[1] == "skipped"]
-    ok = [r for r in results if r[1] == "ok"]
+    kinds = {c[0]: ("benign" if c[3] else "mutant") for c in cases}
     for ident, status, detail in sorted(results):
-        if status != "ok":
+        if status == "ok":
+            summary["ok"] += 1
+            if kinds[ident] == "mutant" and len(summary["samples"]) < 6:
+                summary["samples"].append({"mutant": ident, "reported_as": detail})
+        elif status == "skipped":
+            summary["skipped"].append(ident)
+        else:
+            summary["failed"].append({"case": ident, "status": status, "detail": detail})
+        if status != "ok" and not quiet:
             print(f"  selftest {ident}: {status} {detail}")
-    print(f"{property_id} thorough: self-validation {len(ok)} ok, {len(skipped)} skipped, "
-          f"{len(bad)} failed of {len(results)} cases ({time.time() - started:.1f}s)")
-    if bad:
+    summary["wall_s"] = round(time.time() - started, 1)
+    if not quiet:
+        print(f"{property_id} thorough: self-validation {summary['ok']} ok, {len(summary['skipped'])} skipped, "
+              f"{len(summary['failed'])} failed of {len(results)} cases ({summary['wall_s']}s)")
+    if summary["failed"]:
         print(f"ANALYSIS-ERROR property={property_id} checker self-validation failed")
-        return 2
-    return 0
+        return 2, summary
+    return 0, summary
